@@ -1,4 +1,5 @@
 import CstModel.Props.C01
+import CstModel.Props.GenBuilder2
 open Cst.C01
 #print axioms build_faithful
 #print axioms build_text
@@ -7,3 +8,7 @@ open Cst.C01
 #print axioms build_faithful_impl
 #print axioms collision_witness
 #print axioms unfaithful_without_compare
+#print axioms Cst.Gen.b_finish_node_raw
+#print axioms Cst.Gen.b_finish_raw
+#print axioms Cst.Gen.b_token_raw
+#print axioms Cst.Gen.b_static_token_raw
